@@ -17,6 +17,23 @@ SPC = "pycaption/scc/specialized_collections.py"
 
 
 def run(ctx, report):
+    report.section("scan structure", structural, ctx, report)
+    from . import scc_read_fold, scc_e2e_fold
+    # read() folded around a stubbed decoder: every list of up to N prepared captions over the boundary row lengths
+    report.section("read() on prepared captions", scc_read_fold.run, ctx, report, {
+        "length": ("R-MUSTRAISE", "3", "a row longer than 32 characters anywhere in the stash raises CaptionLineLengthError; "
+                                       "otherwise the captions are returned"),
+        "message": ("R-MUSTRAISE", "1", "the error message names every offending row with its length"),
+    })
+    # the whole reader, end to end, on generated streams in the three caption modes
+    report.section("end to end", scc_e2e_fold.run_part, ctx, report, "lengths", {
+        "length": ("R-E2E", "2", "rows of 0..40 characters in pop-on, roll-up and paint-on streams: the error is raised "
+                                 "exactly when a row is longer than 32, and no returned line is longer"),
+        "message": ("R-E2E", "1", "the error names every offending row"),
+    })
+
+
+def structural(ctx, report):
     fn = ctx.index.get_function(SCC, "SCCReader.read")
     report.covered(fn)
     # the scan loop: the `for` whose body compares a length with 32
